@@ -929,8 +929,11 @@ theorem powerSort_spec (p : Params) {o : Orders} (ho : o.Valid) {fetch : Id → 
   · rw [if_neg hall] at hsp ⊢
     rw [hsp]
 
-/-- Hypotheses of the refinement theorem about the room (`WF` of DESIGN §6 C06/C07). -/
-structure SpecWF (p : Params) (store : List Event) (sets : List StateMap) (chains : List (List Id))
+/-- Hypotheses of the refinement theorems about the room (`WF` of DESIGN §6 C06/C07): state maps and
+auth chains are maps/sets; every event of the full conflicted set is known, cites the room's create
+event `c0` and at most one power-levels event (C06's `RoomWF`) and is not itself a create event; the
+store is closed under `auth_events` and acyclic; the state sets mention known events only. -/
+structure RoomOk (store : List Event) (sets : List StateMap) (chains : List (List Id))
     (c0 : Event) : Prop where
   setsWF : SetsWF sets
   chainsNodup : ∀ c ∈ chains, c.Nodup
@@ -940,6 +943,11 @@ structure SpecWF (p : Params) (store : List Event) (sets : List StateMap) (chain
   closed : ∀ id e, fetchOf store id = some e → ∀ a ∈ e.authEvents, (fetchOf store a).isSome = true
   acyclic : ∃ rank : Id → Nat, ∀ id e, fetchOf store id = some e → ∀ a ∈ e.authEvents, rank a < rank id
   known : ∀ s ∈ sets, ∀ k v, AL.get s k = some v → (fetchOf store v).isSome = true
+
+/-- `RoomOk` plus the one hypothesis about the parameters: authorization reads the state only at the
+selected auth types (C09). -/
+structure SpecWF (p : Params) (store : List Event) (sets : List StateMap) (chains : List (List Id))
+    (c0 : Event) : Prop extends RoomOk store sets chains c0 where
   authLocal : AuthLocal p
 
 theorem SpecWF.storeOk {p : Params} {store : List Event} {sets : List StateMap} {chains : List (List Id)}
